@@ -102,6 +102,15 @@ def to_str(I, v, repr_=False):
         return I.ctx.to_val(v)
     if not repr_ and isinstance(v, (SV, int, float, bool)) and (not isinstance(v, SV) or isinstance(v.ty, (TStr, TNum, TBool, TNone, TAny))):
         return SV(Z.mk_str(render_s(I, v)), TStr())
+    v2 = I.ctx.from_val(v) if isinstance(v, SV) else v
+    if isinstance(v2, SV) and isinstance(v2.ty, TObj):
+        # an object of an in-repo class: str() / format() / repr() run ITS __str__ / __repr__ (which may raise), not a total library conversion
+        cls = I.ctx.resolve_ty(v2.ty).cls
+        for meth in (("__repr__",) if repr_ else ("__str__", "__repr__")):
+            owner, mem = I.repo.lookup_member(cls, meth)
+            if isinstance(mem, FunctionInfo):
+                r = I.call(BoundMethod(v2, mem, owner), [], {})
+                return r if isinstance(r, SV) else I.ctx.to_val(r)
     return opaque_str(I, "str()/repr()/format of a value")
 
 
